@@ -102,8 +102,6 @@ class Sizing(Stream):
             self._tab = self.table()
         tab = self._tab
         names = [k for k, _ in tab]
-        if o['listed'] != stable_hash(tab):
-            return 'list_instances() differs from instance_sizes.json'
         if o['name'] not in names:
             return 'returned name %r is not a catalogue size' % (o['name'],)
         if o['caps'] is None:
@@ -129,6 +127,8 @@ class Sizing(Stream):
                 return 'nothing satisfies the request but %s is not the last size' % o['name']
             if any(v[i] > got[i] for _, v in tab for i in range(3)):
                 return 'fallback %s is not the largest size' % o['name']
+        if o['listed'] != stable_hash(tab):
+            return 'list_instances() differs from instance_sizes.json'
         return None
 
     def key(self, case, o):
@@ -150,6 +150,13 @@ class Sizing(Stream):
 
     def shrink(self, case, failing):
         case = list(case)
+        try:    # a size the implementation lists differently: ask for exactly that size (a request-specific failure)
+            rt = dict(self.runtime_table())
+            for k, v in self.table():
+                if rt.get(k) != v and failing(list(v)):
+                    return list(v)
+        except Exception:
+            pass
         for i in range(3):
             for v in (0, 1):
                 if case[i] > v:
@@ -198,7 +205,7 @@ class PySort(Stream):
             'non-trivial = length >= 64 (merging happens)')
 
     def gen(self, rng, tier):
-        n_cases = 150 if tier == 'quick' else 2000
+        n_cases = 150 if tier == 'quick' else 1500
         big = 700 if tier == 'quick' else 2000
         out = []
         for _ in range(n_cases):
